@@ -92,12 +92,17 @@ class C18(Prop):
         # 8 simulants and 4 steps none did: a backup that dropped the active index went unnoticed - mutant
         # break-transition-getstate-drops-active-index)
         state2 = dict(state, pop=24, n_steps=5, disease=dict(state["disease"], trig={"at": 0, "every": 2}))
+        # per-simulant clocks in which the earliest pending next-event time belongs to UNTRACKED simulants only (every tracked
+        # simulant asks for the long step): whatever recomputes the global step on resumption must look at everybody
+        living = dict(full, n_steps=9, pop=30, stepmod={"every": 1, "mult": 3, "living": True}, mort={"mods": 1, "scale": 160},
+                      extras=None)        # no Extras component: it would park the untracked simulants at the end
         # WHOLE stream: age column, interpolated table + pipeline with three modifiers, observer with a stateful log, key columns
         from . import whole
         return [{"spec": full, "hs_save": 1, "hs_resume": 2, "noise": 5, "plan": 1},
                 {"spec": vary, "hs_save": 0, "hs_resume": 3, "noise": 9, "plan": 2},
                 {"spec": state, "hs_save": "random", "hs_resume": "random", "noise": 13, "plan": 3},
                 {"spec": state2, "hs_save": "random", "hs_resume": "random", "noise": 13, "plan": 3},
+                {"spec": living, "hs_save": 1, "hs_resume": 2, "noise": 7, "plan": 4, "thorough": True},
                 {"kind": "whole", "cfg": whole.ext_boundary()[-1], "hs_save": 1, "hs_resume": "random", "noise": 4, "plan": 5}]
 
     def generate(self, rng: random.Random, i: int, tier: str):
